@@ -179,9 +179,9 @@ structure CertWF (o : PtOracle) (c : Cert) (s : Sig) : Prop where
   sigKeyLen : c.sigKey.marshal.length < 4294967296
   sigLen : (putSig s).length < 4294967296
 
-/-- `parseCert(Marshal(c) minus the name) = c` -/
-theorem parseCert_signedPart (o : PtOracle) (c : Cert) (s : Sig) (h : CertWF o c s) :
-    parseCert o c.key.type
+/-- the field parser on `Marshal(c)` minus the name gives `c` back -/
+theorem parseCertNoCheck_signedPart (o : PtOracle) (c : Cert) (s : Sig) (h : CertWF o c s) :
+    parseCertNoCheck o c.key.type
       (putString c.nonce ++ c.key.body ++
         putU64 c.serial ++ putU32 c.certType ++ putString c.keyId ++ putString (putStrings c.principals) ++
         putU64 c.validAfter ++ putU64 c.validBefore ++ putString (putTuples c.critOpts) ++
@@ -189,7 +189,7 @@ theorem parseCert_signedPart (o : PtOracle) (c : Cert) (s : Sig) (h : CertWF o c
         putString (putSig s)) = some c := by
   obtain ⟨t, _, _, _, _, hnc⟩ := certTypeOf_spec o c.sigKey h.sigKey
   simp only [List.append_assoc]
-  rw [parseCert, parseString_putString _ h.nonce]
+  rw [parseCertNoCheck, parseString_putString _ h.nonce]
   simp only []
   rw [parsePlain_body o c.key h.key]
   simp only []
@@ -243,9 +243,18 @@ theorem marshal_parse (o : PtOracle) (c : Cert) (s : Sig) (h : CertWF o c s) (b 
   simp only [Cert.signedPart, List.append_assoc]
   rw [hp]
   simp only [harm, ↓reduceIte, hfind]
-  have := parseCert_signedPart o c s h
-  simp only [List.append_assoc] at this
-  rw [this]
+  have hnc := parseCertNoCheck_signedPart o c s h
+  simp only [List.append_assoc] at hnc
+  -- the canonical-encoding check: Marshal(c) = name ‖ input
+  have hmar : c.marshal = some (putString t ++ (putString c.nonce ++ (c.key.body ++ (putU64 c.serial ++ (putU32 c.certType ++
+      (putString c.keyId ++ (putString (putStrings c.principals) ++ (putU64 c.validAfter ++ (putU64 c.validBefore ++
+      (putString (putTuples c.critOpts) ++ (putString (putTuples c.exts) ++ (putString c.reserved ++
+      (putString c.sigKey.marshal ++ putString (putSig s)))))))))))))) := by
+    unfold Cert.marshal
+    simp only [ht, h.sig, Cert.signedPart, List.append_assoc]
+  unfold parseCert
+  rw [hnc]
+  simp only [hmar, hp, ↓reduceIte]
   rfl
 
 /-- byte-for-byte: marshalling the parse of a marshalled well-formed certificate gives the same bytes -/
